@@ -232,6 +232,63 @@ CHECKS = {
         'GnuPG and TLS themselves are below the seam; transport contract '
         '"nothing delivered after loseConnection" honoured by the harness.',
     ),
+    'C06': (
+        'shelve-rig', 'exploration',
+        'model-based: Hypothesis-generated histories (update, load, version '
+        'bump, remove, add target, close/reopen) on a real shelve store vs a '
+        'dictionary keyed by the full versioned identity + target + run',
+        'Every Dataset.load() is compared value by value with the harness '
+        'model: the content stored for the requested run when present, else '
+        'that of the highest run of exactly that identity (task, algorithm, '
+        'state vector, value, each with its version) and target, else the '
+        'untouched prototype object; the version seal of the loaded value '
+        'must be the identity\'s; after every operation the prime table is '
+        'compared with the model (nothing lost, nothing extra).',
+        'shelve backend only (no PostgreSQL server offline); prefix-free '
+        'names; contents are generated picklable trees.',
+    ),
+    'C07': (
+        'shelve-rig', 'fault_enumeration',
+        'model-based histories with repeating contents, removals, the purge '
+        'tool and reopen on a real shelve store, every blob re-hashed with '
+        'hashlib; crash injected at every instrumented step of an update '
+        '(exhaustive per generated prefix), restart, check, retry',
+        'Part history: after every update the reported new-value flags must '
+        'equal "blob name not in the store directory before"; every file in '
+        'the store is named md5_sha1 of its own bytes (recomputed), no two '
+        'files have equal bytes, every prime entry names an existing file, '
+        'the blob named by the catalogue is the digest of the pickled value '
+        'the harness computes itself. Part crash: for a generated prefix and '
+        'one further update the run is cut at each of the steps mkstemp, '
+        'pickle.dump (before/after), chmod, md5sum, sha1sum, exists, '
+        'move/unlink (before/after), reply (before/after) in turn - every '
+        'occurrence, 10-60 per update - followed by restart, invariant '
+        'check, retry of the update, invariant check.',
+        'crashes at step boundaries with completed steps durable; staging '
+        'and store on one file system; digest binaries replaced by hashlib '
+        'in 7 of 8 stores.',
+    ),
+    'C08': (
+        'shelve-rig', 'exploration',
+        'model-based histories over prefix-family names (registrations, '
+        'updates, removals, reset, trace, next, reopen) on a real shelve '
+        'store; table invariants after every step; metamorphic exactness: '
+        'the prime table must equal the harness model after every removal; '
+        'reset/trace compared with exact-name answers from the model',
+        'After every operation: each table\'s ids are exactly 0..n-1, the '
+        'index list is the inverse of the table, no id ever changes (also '
+        'across reopen), every alg/state/value name carries a resolving '
+        'parent id, every prime key resolves through value -> state vector '
+        '-> algorithm -> task, next() exceeds every stored run ID (run IDs '
+        'of different decimal width included); remove deletes exactly the '
+        'model\'s entries of that exact name; reset yields a version recorded '
+        'for exactly that algorithm/run/target; trace equals the latest run '
+        'of the highest registered version of exactly that task.algorithm. '
+        'Part wide drives ids past 10 first (ids whose decimal text begins '
+        'with another id).',
+        'shelve backend only; reset/trace under their documented '
+        'preconditions.',
+    ),
 }
 
 NOT_YET = 'check not built yet in this session (planned, see DESIGN.md section 4)'
